@@ -395,6 +395,10 @@ class BehavioralRTLIRTypeCheckVisitorL1( bir.BehavioralRTLIRNodeVisitor ):
         s.enforcer.enter( s.blk, rt.NetWire(rdt.Vector(idx_nbits)), idx )
 
   def visit_Index( s, node ):
+    # The result of an operation cannot be indexed in Verilog
+    if isinstance( node.value.Type, rt.NetWire ):
+      raise PyMTLTypeError( s.blk, node.ast,
+        'the base of an index must be an array or signal, not the result of an expression!' )
     idx = None if not hasattr(node.idx, "_value") else int(node.idx._value)
     if isinstance( node.value.Type, rt.Array ):
       if idx is not None and not (0 <= idx < node.value.Type.get_dim_sizes()[0]):
@@ -456,6 +460,11 @@ class BehavioralRTLIRTypeCheckVisitorL1( bir.BehavioralRTLIRNodeVisitor ):
 
     if not isinstance( dtype, rdt.Vector ):
       raise PyMTLTypeError( s.blk, node.ast, f'cannot perform slicing on type {dtype}!')
+
+    # The result of an operation cannot be sliced in Verilog
+    if isinstance( node.value.Type, rt.NetWire ):
+      raise PyMTLTypeError( s.blk, node.ast,
+        'the base of a slice must be a signal, not the result of an expression!' )
 
     s._handle_index_extension( node, node.value, node.lower, 'slice lower bound' )
     s._handle_index_extension( node, node.value, node.upper, 'slice upper bound', False )
